@@ -122,6 +122,12 @@ Theorem C04_threshold_acts_through_rescue_cutoff : forall me o st l ka thr thr' 
 Proof. exact threshold_acts_through_rescue_cutoff. Qed.
 Print Assumptions C04_threshold_acts_through_rescue_cutoff.
 
+(* the rescue regrouping is handed exactly the peptides whose PEP is STRICTLY below the rescue cutoff (a peptide at the cutoff is out) *)
+Theorem C04_rescue_uses_peptides_better_than_cutoff : forall (l : pil) (cut : Q) en,
+  In en (filter_by_cutoff l cut) <-> In en l /\ (fst (snd en) < cut)%Q.
+Proof. exact filter_by_cutoff_spec. Qed.
+Print Assumptions C04_rescue_uses_peptides_better_than_cutoff.
+
 Example C04_rescue_cutoff_witness :
   rescue_score_cutoff (fun x => x) [((5#1), (0#1)); ((3#1), (1#10)); ((2#1), (1#2))]%Q (1#5)%Q = Ok (3#1)%Q /\
   rescue_score_cutoff (fun x => x) [((5#1), (1#1)); ((3#1), (1#1))]%Q (1#100)%Q = Ok (3#1)%Q.
